@@ -270,6 +270,34 @@ func embedded() int {
 	return T{bar{2}}.n + baz.Base()
 }
 
+// selectors and literal keys naming a field declared by embedding a renamed local type
+func embeddedSel() int {
+	type bar struct{ N int }
+	type w struct{ bar }
+	type pw struct{ *bar }
+	v := w{bar{baz.Base()}}
+	u := pw{bar: &bar{N: 1}}
+	return v.bar.N + u.bar.N
+}
+
+// an unparenthesised declaration that ends in a package qualifier, with a closure parameter named like the import
+var scale = func(bar int) baz.Dur { return baz.Dur(bar) }(3) * baz.Second
+
+// a label used before it is declared, and a type parameter used in the constraint of an earlier one, both named like
+// something in the generated file's scope
+func forward(n int) int {
+	if n > 0 {
+		goto bar
+	}
+	n = -n
+bar:
+	return n + baz.Base()
+}
+
+type E = string
+
+func firstOf[S ~[]E, E any](s S) E { return s[0] }
+
 func (p Pair) Method() string { return p.B }
 
 // a method that happens to carry the injector's name
@@ -329,6 +357,9 @@ func Check() string {
 	if wrapped() != "hi w" || tswitch("q") != "q/10" || tswitch(uint(5)) != "15" || tswitch(7) != "n" || embedded() != 12 {
 		return "embedded type names / type-switch variables differ"
 	}
+	if embeddedSel() != 11 || int(scale) != 3000 || forward(-2) != 12 || forward(3) != 13 || firstOf([]int{7, 8}) != 7 {
+		return "embedded selectors / trailing qualifier / forward references differ"
+	}
 	if (Pair{B: "y"}).InitA() != "method:y" {
 		return "method named like the injector differs"
 	}
@@ -353,7 +384,7 @@ def eng_copydecls(pid, tier, wd, known, replay=None):
     os.makedirs(os.path.join(root, "main"), exist_ok=True)
     open(os.path.join(root, "go.mod"), "w").write("module example.com/c\n\ngo 1.21\n\nrequire github.com/google/wire v0.1.0\n\nreplace github.com/google/wire => %s\n" % REPO)
     shutil.copy(os.path.join(REPO, "go.sum"), os.path.join(root, "go.sum"))
-    open(os.path.join(root, "bar/bar.go"), "w").write("package bar\n\nfunc Base() int { return 10 }\n")
+    open(os.path.join(root, "bar/bar.go"), "w").write("package bar\n\ntype Dur int\n\nconst Second Dur = 1000\n\nfunc Base() int { return 10 }\n")
     os.makedirs(os.path.join(root, "dot"), exist_ok=True)
     open(os.path.join(root, "dot/dot.go"), "w").write(DOT_SRC)
     open(os.path.join(root, "cp/wire.go"), "w").write(COPY_SRC)
@@ -386,7 +417,7 @@ def eng_copydecls(pid, tier, wd, known, replay=None):
             if json.dumps(fs_["stmts"]) != json.dumps(fo["stmts"]) or fs_["params"] != fo["params"] or fs_["results"] != fo["results"]:
                 why.append("function %s is not copied structurally identical" % fs_["name"])
         for a, b in zip(src["other"], out["other"]):
-            if a != b:
+            if a != b and "baz." not in a:          # (a declaration that mentions the aliased import is rewritten: compared by behaviour)
                 why.append("declaration copied differently: %r vs %r" % (a[:80], b[:80]))
         b = sh(["go", "run", "./main"], cwd=root, env=GOENV, timeout=300)
         if b.returncode != 0:
